@@ -49,10 +49,10 @@ Coros ==
 Generated(d, w, menu) == {Build(s, menu, 1, 0) : s \in Shapes(d, w)}
 SpineTrees(d) == {Build(s, "aw", 1, 0) : s \in Spine(d) \cup Chain(d)}
 
-TreeMenu == IF Menu = "quick" THEN Explicit \cup Generated(2, 2, "aw") \cup Generated(1, 3, "awmix")
+TreeMenu == IF Menu = "quick" THEN {Ord(t) : t \in Coros} \cup Explicit \cup Generated(2, 2, "aw") \cup Generated(1, 3, "awmix")
                                    \cup WithDeps(Coros \cup Generated(2, 2, "co")) \cup {DepNext(t) : t \in Explicit}
             ELSE IF Menu = "deps" THEN WithDeps(Coros)
-            ELSE WithDeps(Explicit \cup More \cup Coros \cup Generated(2, 2, "co") \cup Generated(2, 2, "aw") \cup Generated(1, 3, "co")) \cup Explicit \cup More \cup Generated(2, 2, "aw") \cup Generated(2, 2, "awmix") \cup Generated(1, 3, "aw") \cup SpineTrees(3)
+            ELSE WithDeps(Explicit \cup More \cup Coros \cup Generated(2, 2, "co") \cup Generated(2, 2, "aw") \cup Generated(1, 3, "co")) \cup {Ord(t) : t \in Coros \cup Explicit \cup More} \cup Explicit \cup More \cup Generated(2, 2, "aw") \cup Generated(2, 2, "awmix") \cup Generated(1, 3, "aw") \cup SpineTrees(3)
                  \cup {Build(s, "awmix", 1, 0) : s \in Spine(4) \cup Uniform(3)}                \* depth 4 / 8 leaves, 2-4 awaitables
 
 \* generator: the step by which waiter returns prints the schedule and the value returned
